@@ -1182,6 +1182,25 @@ class Tr:
                 self.env[acc.id] = (acc.id, "list:" + rt)
                 k = self.block(rest[1:])
                 return "let* %s := fold_prev (fun %s %s => %s) %s in\n  %s" % (acc.id, d, pv, body, seq, k)
+            if (isinstance(acc, ast.Name) and isinstance(f.target, ast.Name) and not f.orelse and len(f.body) == 2
+                    and isinstance(f.body[0], ast.Assign) and len(f.body[0].targets) == 1 and isinstance(f.body[0].targets[0], ast.Name)
+                    and isinstance(f.body[0].value, ast.Call)
+                    and isinstance(f.body[1], ast.Expr) and ast.unparse(f.body[1].value) == "%s.append(%s)" % (acc.id, f.body[0].targets[0].id)):
+                # events = []; for D in DATAS: E = F(D); events.append(E)        (a map that stops at the first exception)
+                seq, tseq, mseq = self.expr(f.iter)
+                if not tseq.startswith("list:") or mseq:
+                    self.err(f, "loop over a non-sequence")
+                d = f.target.id
+                saved = dict(self.env)
+                self.env[d] = (d, tseq[5:])
+                binds, c, t, m = self.lifted(f.body[0].value)
+                self.env = saved
+                if any(ast.unparse(n) == acc.id for n in ast.walk(f.body[0].value) if isinstance(n, ast.Name)):
+                    self.err(f, "loop body reads the accumulator")
+                body = self.wrap(binds, c if m else "Ok %s" % c).replace("\n  ", " ")
+                self.env[acc.id] = (acc.id, "list:" + t)
+                k = self.block(rest[1:])
+                return "let* %s := mapM (fun %s => %s) %s in\n  %s" % (acc.id, d, body, seq, k)
             self.err(s, "accumulation loop shape")
         # if C: <assignments> else: <assignments>   followed by code: the branches are joined on the names both assign
         if isinstance(s, ast.If) and rest and getattr(self, "loop_state", None) is not None:
@@ -1803,19 +1822,30 @@ def group_bpm():
     out.append(Tr("leaf_data_to_bpm_events", env, calls, "bpmevents").function(
         f, [("T", "tables"), ("datas", "list (Z * str)"), ("resolution", "Z")], True))
     # BPMEvents.timestamp_at_tick_no_optimize_return
+    # AnchorEvent.from_parsed_data and the anchor loop of build_events_from_data
+    f = find_function(sync, "AnchorEvent.from_parsed_data")
+    env = {"data.tick": ("tick", "int"), "data.microseconds": ("us", "int")}
+    calls = {"timedelta": ("td_of_us", ["int"], "ts", True, ["microseconds"]),
+             "cls": ("mk_anchor", ["int", "ts"], "anchor", False, ["tick", "timestamp"])}
+    out.append(Tr("leaf_anchor_from_parsed_data", env, calls, "anchor").function(f, [("tick", "Z"), ("us", "Z")], True))
+    f = find_function(track, "build_events_from_data.data_to_anchor_events")
+    calls = {"AnchorEvent.from_parsed_data": ("anchor_from_py", ["pdata"], "anchor", True)}
+    out.append(Tr("leaf_data_to_anchor_events", {"datas": ("datas", "list:pdata")}, calls, "list:anchor").function(f, [("datas", "list pdata")], True))
     f = find_function(sync, "BPMEvents.timestamp_at_tick_no_optimize_return")
     calls = {"self.timestamp_at_tick": ("timestamp_at_tick_d B", ["int"], "tuple:ts,int", True)}
     out.append(Tr("leaf_timestamp_at_tick_no_optimize_return", {"tick": ("tick", "int")}, calls, "ts").function(f, [("B", "bpm_events"), ("tick", "Z")], True))
     return out
 
 
-BPM_HEADER = """From CP Require Import Base.Prelude Base.Str Base.Cfg Base.Loops Base.Float64 Base.Timedelta Model.Sync Gen.Leaf_tick.
+BPM_HEADER = """From CP Require Import Base.Prelude Base.Str Base.Cfg Base.Loops Base.Float64 Base.Timedelta Model.Lines Model.Sync Gen.Leaf_tick.
 Open Scope Z_scope.
 (* argument shapes of the source's call sites; the constructors run the classes' __post_init__ validation *)
 Definition mk_bpm_event (tick ts : Z) (bpm : f64) (idx : Z) : result bpm_event :=
   let* _ := check_bpm_3dp bpm in Ok {| b_tick := tick; b_ts := ts; b_bpm := bpm; b_idx := idx |}.
 Definition bpm_from_data_py (T : tables) (d : Z * str) (prev : option bpm_event) (R : Z) := bpm_from_data T (fst d) (snd d) prev R.
 Definition timestamp_at_tick_d (B : bpm_events) (tick : Z) := timestamp_at_tick B tick 0.
+Definition mk_anchor (tick ts : Z) : anchor_event := {| a_tick := tick; a_ts := ts |}.
+Definition anchor_from_py (d : pdata) : result anchor_event := anchor_from d.
 """
 
 
